@@ -55,6 +55,8 @@ FORMATS = {
 NOT_REPRESENTABLE = {
     ("tab", "symbol-ws"), ("headers", "symbol-ws"), ("gzip", "symbol-ws"), ("pipe", "symbol-ws"), ("pipe", "symbol-special"),
     ("comma", "symbol-special"), ("comma", "symbol-ws"), ("comma", "two-columns"),
+    # records and ADTs print with ", " between their fields: not representable with ',' as the column delimiter (without RFC 4180 quoting)
+    ("comma", "record"), ("comma", "nested-record"), ("comma", "adt"), ("comma", "mixed"),
 }
 
 
@@ -104,6 +106,18 @@ def _one(arg):
 
 
 def classify(res):
+    t, f = res["type"], res["format"]
+    fid = None
+    if t in ("float", "mixed") and f in ("json-list", "json-object"):
+        fid = "C17-json-float"
+    elif t in ("float", "mixed") and f == "sqlite":
+        fid = "C17-sqlite-float"
+    elif t == "adt" and f in ("json-list", "json-object", "sqlite"):
+        fid = "C17-adt-json-sqlite"
+    if fid:
+        for e in load_findings(PID):
+            if e["id"] == fid:
+                return e
     return None
 
 
@@ -125,11 +139,17 @@ def check(tier):
         tuples += res["n"]
         desc = "%s values in format %s" % (res["type"], res["format"])
         rp = {"kind": "roundtrip", "type": res["type"], "format": res["format"], "writer": res["writer"], "reader": res["reader"]}
+        bad = "error" in res or res["stats"][0] or res["stats"][1] or res["stats"][2] != res["stats"][3]
+        if bad:
+            kf = classify(res)
+            if kf:
+                rep.known_finding(kf, desc)
+                continue
         if "error" in res:
             rep.violation("%s: %s" % (desc, res["error"]), rp)
             continue
         m, e, no, nw = res["stats"]
-        if m or e or no != nw or no != res["n"] and False:
+        if m or e or no != nw:
             rep.violation("%s: %d of %d tuples lost, %d foreign tuples read back (missing: %r extra: %r)" % (desc, m, no, e, res["missing"][:120], res["extra"][:120]), rp)
     rep.set("tuples_round_tripped", tuples)
     rep.set("distinct_nontrivial", len(jobs))
